@@ -1,32 +1,44 @@
 """C18 — periodic table data complete and mutually consistent (proof; finite, enumerated completely).
 
-Tie: G only for the data (the Lean model *is* the regenerated table); the correspondence step exercises the
-public API (`from_symbol`, `from_atomic_number`, `atomic_mass`, isotope setter, `valence_rules`, Query*/Dynamic*
-classes) on every element x isotope x charge x radical and compares with the same predicates the theorems state.
-That produces the replay (element, isotope, predicate) when a theorem fails.
+Tie: G for the data (the Lean model *is* the regenerated table) + K for the behaviour: `Model/C18Atom.lean` (lookups, one live atom
+object with its setters / atomic_mass / copy / valence_rules, the matcher words of a state) is executed by `drv_c18` against the
+real objects (requests SYM, NUM, HIST, BITS).  The correspondence step also exercises the public API (`from_symbol`,
+`from_atomic_number`, `atomic_mass`, isotope setter, `valence_rules`, Query*/Dynamic* classes, pack/unpack, both matchers) on every
+element x isotope x charge x radical and on object histories (c18_state.py) with property-level oracles that never consult the
+Lean model; a false predicate there *is* a failing input (element, state | history, predicate).
 """
 from ..core import LEAN
 from ..gen import gen_periodic
 from . import c18_state
 
 LEVEL = 'proof'
-LEVEL_TEXT = ('Every clause is a universally quantified theorem over the complete finite domain (118 elements x all tabulated '
-              'isotopes x charges -4..4 x H 0..6/unknown), proved by kernel evaluation over tables regenerated from /repo on '
-              'every run; the public API is additionally exercised exhaustively on the live classes. Proof is the right level '
-              'because the domain is finite and the model is the data itself.')
+LEVEL_TEXT = ('Every data clause is a universally quantified theorem over the complete finite domain (118 elements x all tabulated '
+              'isotopes x charges -4..4 x radical flag x H 0..6/unknown), proved by kernel evaluation over tables regenerated from /repo '
+              'on every run. The behavioural clauses (lookups, isotope / charge / radical setters, atomic_mass over any history of one '
+              'atom object, the matcher words of every state) are theorems by induction / case analysis about an executable Lean model '
+              'that drv_c18 runs against the real objects on every check; the public API is additionally exercised exhaustively on the '
+              'live classes (state grid through both matchers and the pack codec, object histories). Proof is the right level because the '
+              'domain is finite and the model is the data plus a three-field state machine.')
 LEVEL_NOTE = ('Lean kernel; gen_periodic translator (evaluates the property bodies of the Element subclasses and parses the two '
-              '.pyx literal tables); Spec/Iupac.lean written by hand; floats compared as micro-units.')
-TECHNIQUE = 'Lean 4 decide +kernel theorems over regenerated periodic-table data + exhaustive API correspondence'
+              '.pyx literal tables); gen_bitlayout (C09\'s extractor of the matcher layout literals); Spec/Iupac.lean written by hand; '
+              'floats compared as micro-units, atomic_mass against the exact rational with tolerance 1e-11 u.')
+TECHNIQUE = 'Lean 4 decide +kernel theorems over regenerated tables + inductive theorems over an executable atom-object / matcher-state model tied by a driver + exhaustive API correspondence'
 HAS_DRIVER = True
 EXTRA_MODULES = ['Model.C18Atom', 'Proofs.C18History', 'Proofs.C18Matcher']
 FINDINGS_MODULE = 'ChythonModel.Findings.C18'
-RULE = ('exhaustive: every Element subclass x every tabulated isotope x charge -4..4 x radical flag x every predicate '
-        'of Props/C18.lean re-evaluated on the live classes through the public API; a case is non-trivial when it '
-        'evaluates a predicate on a concrete (element, isotope|charge) pair; distinct by (predicate, symbol, value)')
+RULE = ('exhaustive: every Element subclass x every tabulated isotope | none x charge -4..4 x radical flag (hydrogens rotating) as a '
+        'one-atom molecule against its own and every one-field-different query atom through both matchers and through pack/unpack; '
+        'every predicate of Props/C18.lean re-evaluated on the live classes; object histories = the five exhaustive walks per element '
+        '(isotope table up / down / star, charge x radical grid, rejected values) + seeded random histories, each step judged against '
+        'the tables and a fresh object and (HIST) against the Lean state machine; a case is non-trivial when it evaluates a predicate '
+        'on a concrete (element, state | history) pair; distinct by (predicate, symbol, value)')
 TRUSTED = ['gen_periodic translator (imports chython.periodictable from /repo, parses the two .pyx literal tables)',
+           'gen_bitlayout translator (literals of _cython_compiled_structure / _cython_compiled_query)',
            'Spec/Iupac.lean (118 symbols written by hand from the standard table)']
 ASSUMPTIONS = ['property bodies of Element subclasses do not depend on instance state (evaluated with self=None)',
-               'tabulated float literals have at most 6 decimals (emitted as micro-units)']
+               'tabulated float literals have at most 6 decimals (emitted as micro-units)',
+               'the matcher theorems fix hybridization 1 / no rings (one-atom molecule); hydrogen, neighbour and heteroatom fields are '
+               'proved on the neutral unlabelled atom and exercised, not proved, in combination with the other fields']
 
 _state = {}
 
@@ -360,7 +372,7 @@ def model_correspondence(ctx, bits):
 def correspond(ctx):
     """Exhaustive evaluation on the live classes. A false predicate *is* a failing input for the property."""
     from chython.periodictable import Element
-    ctx.cov['programs'] = 16  # DynamicElement/QueryElement.from_symbol/from_atomic_number/from_atom, MoleculeContainer.pack/unpack, get_mapping (accelerated + reference), from_symbol, from_atomic_number, smiles('[X]'), atomic_mass, isotope setter, charge/radical setters, _compiled_valence_rules, Query*, Dynamic*, pyx tables
+    ctx.cov['programs'] = 21  # isotope/charge/is_radical setters + Element.copy + QueryElement/DynamicElement.from_atom + molecular_mass over histories; DynamicElement/QueryElement.from_symbol/from_atomic_number/from_atom, MoleculeContainer.pack/unpack, get_mapping (accelerated + reference), from_symbol, from_atomic_number, smiles('[X]'), atomic_mass, isotope setter, charge/radical setters, _compiled_valence_rules, Query*, Dynamic*, pyx tables
     for z, sym in iupac():
         for pred, detail, ok in lookup_predicates(z, sym):
             ctx.count((pred, detail))
